@@ -1,6 +1,7 @@
 package main
 
 import (
+	"crypto/sha256"
 	"fmt"
 	"math/big"
 	"strings"
@@ -180,11 +181,18 @@ func c04OfferForged(s *scen, blk *types.WorkObject) (string, string) {
 // c04RunWord walks one word; hostile=true additionally offers forged pending-ETX bundles after
 // every block (c04OfferForged).
 func c04RunWord(word string, p *vx.Part, hostile bool) (string, string, string) {
+	return c04RunWordMode(word, p, hostile, false)
+}
+
+// c04RunWordMode: siblings=true mines EVERY block of the walk as two siblings (the node follows b1,
+// then reorganises to b2; scen.forkAll): reorganisations at the level of every block's order.
+func c04RunWordMode(word string, p *vx.Part, hostile, siblings bool) (string, string, string) {
 	s, err := newScen(3, false, nil)
 	if err != nil {
 		return "harness", err.Error(), ""
 	}
 	defer s.close()
+	s.forkAll = siblings
 	full := c04Warmup + word
 	var hk, hd string
 	if hostile {
@@ -197,6 +205,9 @@ func c04RunWord(word string, p *vx.Part, hostile bool) (string, string, string) 
 	}
 	for i := 0; i < len(full); i++ {
 		if err := s.runWord(full[i : i+1]); err != nil {
+			if siblings {
+				return "reorganised-chain-stuck", fmt.Sprintf("word %q step %d, every block mined as two siblings (b1 followed, then b2): %v", word, i, err), ""
+			}
 			if hostile {
 				// the same word walks through without the hostile peer (checked first): the refusal is
 				// an effect of the forged bundles
@@ -219,6 +230,9 @@ func c04RunWord(word string, p *vx.Part, hostile bool) (string, string, string) 
 	}
 	emitLimit := s.blocks[len(s.blocks)-1].NumberU64(2) + 1
 	if err := s.runWord(c04Drain); err != nil {
+		if siblings {
+			return "reorganised-chain-stuck", fmt.Sprintf("word %q drain, every block mined as two siblings: %v", word, err), ""
+		}
 		if hostile {
 			return "forged-bundle-blocks-chain", fmt.Sprintf("word %q drain, hostile peer offered forged pending-ETX bundles before: %v", word, err), ""
 		}
@@ -228,15 +242,19 @@ func c04RunWord(word string, p *vx.Part, hostile bool) (string, string, string) 
 		return k, fmt.Sprintf("word %q after drain: %s", word, d), ""
 	}
 	emitted, executed := 0, 0
+	// what was executed, in order: type, value and destination of every inbound ETX (the seal of a
+	// block is not part of it, so the walk with sibling blocks must reproduce it exactly)
+	h := sha256.New()
 	for _, b := range s.blocks {
 		emitted += len(b.OutboundEtxs())
 		for _, t := range b.Transactions() {
 			if t.Type() == types.ExternalTxType {
 				executed++
+				fmt.Fprintf(h, "%d/%v/%x;", t.EtxType(), t.Value(), t.To().Bytes())
 			}
 		}
 	}
-	return "", "", fmt.Sprintf("emitted=%d,executed=%d", emitted, executed)
+	return "", "", fmt.Sprintf("emitted=%d,executed=%d,executed-list=%x", emitted, executed, h.Sum(nil)[:4])
 }
 
 func c04Routing(c *vx.Ctx) {
@@ -304,6 +322,31 @@ func c04Routing(c *vx.Ctx) {
 			continue
 		}
 		p.Outcome("hostile:" + hcls)
+		// the same word with every block mined as two siblings (reorganisation at every level)
+		skey, sdesc, scls := c04RunWordMode(w, p, false, true)
+		if skey == "harness" {
+			c.HarnessError(sdesc)
+			return
+		}
+		p.Traces++
+		if skey == "" && scls != cls {
+			skey, sdesc = "reorganisations-change-routing", fmt.Sprintf("word %q: with every block reorganised to its sibling the walk ends with %s, without with %s", w, scls, cls)
+		}
+		if skey != "" {
+			p.Outcome("VIOLATED:siblings:" + skey)
+			w := w
+			if c.Confirm(sdesc, func() string {
+				k, _, c2 := c04RunWordMode(w, nil, false, true)
+				if k == "" && c2 != cls {
+					k = "reorganisations-change-routing"
+				}
+				return k
+			}) {
+				c.Violate("routing", "routing:siblings:"+skey, sdesc, map[string]string{"word": w, "siblings": "1"})
+			}
+			continue
+		}
+		p.Outcome("siblings:" + scls)
 	}
 }
 
@@ -509,6 +552,15 @@ func c04ReplayRoute(c *vx.Ctx, v vx.Violation, raw []byte) string {
 		return "bad replay: " + err.Error()
 	}
 	if v.Part == "routing" {
+		if cs["siblings"] != "" {
+			_, d, cls := c04RunWordMode(cs["word"], nil, false, true)
+			if d == "" {
+				if _, _, plain := c04RunWord(cs["word"], nil, false); plain != cls {
+					d = fmt.Sprintf("word %q: with every block reorganised to its sibling the walk ends with %s, without with %s", cs["word"], cls, plain)
+				}
+			}
+			return d
+		}
 		_, d, cls := c04RunWord(cs["word"], nil, cs["hostile"] != "")
 		if d == "" && cs["hostile"] != "" {
 			if _, _, plain := c04RunWord(cs["word"], nil, false); plain != cls {
